@@ -164,7 +164,9 @@ class Instantiator:
         if any(v in self.vars for v in ('?keys',)) and re.search(r'\((order|topn) ', txt):
             ax['okeys'] = list(range(len(ORDER_VARIANTS))) if self.thorough else [0, 1]
         if any(c == 'is_orderby' for c, _ in self.conds):
-            ax['sortsrc'] = ['order', 'pk']
+            # how the input got its order: sorted by exactly the keys, by a proper prefix of them, by the keys with the first
+            # direction flipped, by the keys plus one more, or stored in primary-key order
+            ax['sortsrc'] = ['order', 'pk', 'order-prefix', 'order-flip', 'order-longer']
         if any(c == 'is_primary_key_range' for c, _ in self.conds):
             ax['range'] = list(range(len(RANGE_FORMS)))
         if re.search(r'\((hashagg|sortagg) \?keys', txt):
@@ -271,8 +273,18 @@ class Instantiator:
             base = ['hashagg', ['list', c0, uf('gk', 'I', [c0, c1])], 'list', base]
         sortsrc = self.choice.get('sortsrc')
         for a in self._cond_args('is_orderby'):
-            if a[1] == v and sortsrc == 'order':
-                base = ['order', self._orderkeys_for(a[0], i), base]
+            if a[1] == v and sortsrc and sortsrc.startswith('order'):
+                keys = lst(self._orderkeys_for(a[0], i))
+                c0, c1 = table_schema(i)
+                flip = lambda k: k[1] if (isinstance(k, list) and k[0] == 'desc') else ['desc', k]
+                if sortsrc == 'order-prefix':
+                    keys = keys[:-1]
+                elif sortsrc == 'order-flip':
+                    keys = [flip(keys[0])] + keys[1:]
+                elif sortsrc == 'order-longer':
+                    extra = c1 if show(c1) not in [show(k[1] if isinstance(k, list) and k[0] == 'desc' else k) for k in keys] else c0
+                    keys = keys + [extra]
+                base = ['order', ['list'] + keys, base]
         if correlated and outer and not any(a == [v, o] for a in self._cond_args('not_depend_on') for o in self.tab):
             cols = [c for c in outer] + visible(table_schema(i))
             base = ['filter', uf('corr' + v[1:], 'B', cols), base]
@@ -282,7 +294,13 @@ class Instantiator:
     def _orderkeys_for(self, keysvar, i):
         c0, c1 = table_schema(i)
         if keysvar not in self.map:
-            self.map[keysvar] = ['list', c0]
+            if 'okeys' in self.choice:
+                keys = ORDER_VARIANTS[self.choice['okeys']](c0, c1)
+            else:
+                keys = ['list', c0]
+            if self.choice.get('sortsrc') == 'order-prefix' and len(keys) < 3:
+                keys = keys + [c1]      # a proper, non-empty prefix needs at least two keys
+            self.map[keysvar] = keys
         return self.map[keysvar]
 
     def _plan(self, p, outer, correlated=False):
